@@ -9,7 +9,7 @@ import (
 )
 
 // partMutations are the corruptions applied to a genuine block part in transit.
-var partMutations = []string{"index", "transplant", "bytes", "leafhash", "aunt", "total", "swap", "truncate"}
+var partMutations = []string{"index", "transplant", "bytes", "leafhash", "aunt", "total", "swap", "truncate", "aunt64"}
 
 func copyPart(p *types.Part) *types.Part {
 	c := &types.Part{Index: p.Index, Bytes: append([]byte{}, p.Bytes...)}
@@ -64,6 +64,23 @@ func (s *sim) deliverMutatedPart(a, b *simNode, src *types.PartSet, rb *cstypes.
 			return false
 		}
 		p.Bytes = p.Bytes[:len(p.Bytes)-1]
+	case "aunt64":
+		// forged bytes at a position of the root's right subtree; the top aunt (the root's left
+		// child L) is replaced by the 64 bytes L||R (R = root's right child, known from part 0's
+		// proof) and the leaf hash is that of the forged bytes: an inner-hash that silently
+		// truncates over-long children would recompute the genuine root whatever the leaf is
+		split := 1
+		for split*2 < total {
+			split *= 2
+		}
+		p0 := src.GetPart(0)
+		if total < 2 || it.part < split || p0 == nil || len(p0.Proof.Aunts) == 0 || len(p.Proof.Aunts) == 0 {
+			return false
+		}
+		top := len(p.Proof.Aunts) - 1
+		p.Proof.Aunts[top] = append(p.Proof.Aunts[top], p0.Proof.Aunts[len(p0.Proof.Aunts)-1]...)
+		p.Bytes[len(p.Bytes)/2] ^= 1
+		p.Proof.LeafHash = merkle.HashFromByteSlices([][]byte{p.Bytes})
 	default:
 		return false
 	}
